@@ -15,7 +15,9 @@ RULE = ("a seeded pool of small nested values (depth <= 3 over null, true, false
         "same outcome for every construction of the same two shapes, never two different booleans for the two orders, "
         "transitive over all triples of shapes, `!=`/`!==` the negation (an error iff the other is), every error names the "
         "two types found at the reported path, `===` true exactly for the same container, no crash, operands print the "
-        "same before and after. Sampled triples are also run as real scripts. non-trivial = distinct (kind-skeleton of "
+        "same before and after; observe-after-compare: two identically built pairs, one of them compared (four times), then identity "
+        "of every common part and the effect of an in-place update of either operand on the other must read the same for both "
+        "pairs; long keys (20..70 bytes) with a 2/3/4-byte character at every offset above a type mismatch. Sampled triples are also run as real scripts. non-trivial = distinct (kind-skeleton of "
         "left shape, of right shape, construction pair, outcome class)")
 ASSUMPTIONS = ["values that contain themselves are excluded (no finite unfolding)",
                "values containing functions are outside the function-free scope of the reflexivity clause: they are generated, "
@@ -39,6 +41,47 @@ def pair_lines(va, vb, same):
         eb = b.build(vb[0], vb[1])
         b.lines.append(f"b := {eb}")
     return b.lines
+
+
+def common_paths(sa, sb, pre=""):
+    """paths at which both shapes hold a container of the same kind (the root included)"""
+    out = []
+    if isinstance(sa, list) and isinstance(sb, list):
+        out.append(pre)
+        for i in range(min(len(sa), len(sb))):
+            out += common_paths(sa[i], sb[i], f"{pre}[{i}]")
+    elif isinstance(sa, dict) and isinstance(sb, dict):
+        out.append(pre)
+        for n in sorted(set(sa) & set(sb)):
+            out += common_paths(sa[n], sb[n], f'{pre}["{n}"]')
+    return out
+
+
+def update_of(s, pre=""):
+    """an in-place update of the first container found (breadth first): text after the variable name"""
+    queue = [(s, pre)]
+    while queue:
+        cur, p = queue.pop(0)
+        if isinstance(cur, dict):
+            return p + '["zz"] = 7'
+        if isinstance(cur, list):
+            if cur:
+                return p + "[0] = 7"
+        if isinstance(cur, list):
+            queue += [(c, f"{p}[{i}]") for i, c in enumerate(cur)]
+        elif isinstance(cur, dict):
+            queue += [(cur[n], f'{p}["{n}"]') for n in sorted(cur)]
+    return None
+
+
+def obs_lines(sa, sb, x, y):
+    lines = [f"print({x}{p} === {y}{p})" for p in common_paths(sa, sb)[:8]]
+    ua, ub = update_of(sa), update_of(sb)
+    if ua:
+        lines += [f"{x}{ua}", f"print({x})", f"print({y})"]
+    if ub:
+        lines += [f"{y}{ub.replace('7', '8')}", f"print({x})", f"print({y})"]
+    return lines
 
 
 def build(spec):
@@ -71,6 +114,31 @@ def build(spec):
         lines = b.lines + [f"print(a{i} == b{i})" for i in range(len(spec["pairs"]))]
     elif k == "func":
         lines = [spec["setup"], f"print({spec['expr']})"]
+    elif k == "obs":
+        # two independent copies of the same two values; only the first pair is compared; what can be observed afterwards
+        # (identity of parts, the effect of an update on the other operand) must be the same for both pairs
+        lines = []
+        for an, bn, off in (("a", "b", 0), ("a2", "b2", 1000)):
+            bld = lv.Builder()
+            bld.n = off
+            ea = bld.build(spec["a"], spec["ra"])
+            bld.lines.append(f"{an} := {ea}")
+            if spec["same"]:
+                bld.lines.append(f"{bn} := {an}")
+            else:
+                eb = bld.build(spec["b"], spec["rb"])
+                bld.lines.append(f"{bn} := {eb}")
+            lines += bld.lines
+        lines += ["print(a == b)", "print(b == a)", "print(a != b)", "print(a == b)"]
+        for an, bn in (("a", "b"), ("a2", "b2")):
+            lines.append('print("#")')
+            lines += obs_lines(spec["a"], spec["b"], an, bn)
+    elif k == "longkey":
+        key = spec["key"]
+        wrap = spec.get("wrap", "%s")
+        oa = '{"' + key + '": 1}'
+        ob = '{"' + key + '": "s"}'
+        lines = ["a := " + wrap % oa, "b := " + wrap % ob, "print(a == b)"]
     elif k == "spelled":
         lines = pair_lines((spec["a"], spec["ra"]), (spec["b"], spec["rb"]), spec["same"])
         lines += ["print(" + SPELLINGS[spec["sp"]][0].replace("LA", lv.lit(spec["a"])).replace("LB", lv.lit(spec["b"])) + ")"]
@@ -222,6 +290,27 @@ def judge(spec, r):
         os_ = [outcome(r, i) for i in range(len(spec["pairs"]))]
         if len({o for o in os_ if o != ("-",)}) > 1:
             return False, f"the same two shapes, built differently, compare differently: {os_}"
+        return True, ""
+    if k == "obs":
+        if r["status"] != "0":
+            return True, ""            # a comparison that is an error ends the script: nothing to observe afterwards
+        parts = r["stdout"].split("#\n")
+        if len(parts) != 3:
+            return False, "the observation script did not print its three sections"
+        answers = parts[0].split("\n")[:-1]
+        if len(answers) == 4 and answers[0] != answers[3]:
+            return False, f"`a == b` answered {answers[0]} and, asked again, {answers[3]}"
+        if parts[1] != parts[2]:
+            la, lb = parts[1].split("\n"), parts[2].split("\n")
+            d = next((i for i, (u, v) in enumerate(zip(la, lb)) if u != v), min(len(la), len(lb)))
+            return False, ("comparing changed what can be observed afterwards (identity of parts / effect of an update on the other "
+                           f"operand): observation line {d + 1} is {la[d] if d < len(la) else None!r} for the compared pair and "
+                           f"{lb[d] if d < len(lb) else None!r} for an identically built pair that was not compared")
+        return True, ""
+    if k == "longkey":
+        o = outcome(r, 0)
+        if o[0] != "E" or tuple(o[1][:2]) != ("int", "string"):
+            return False, f"an int and a string under the same (long, multi-byte) key must be a diagnostic naming both types, got {o}: {r['stderr'][:160]}"
         return True, ""
     if k == "func":
         o = outcome(r, 0)
@@ -543,6 +632,38 @@ def run(ctx, model_ok):
         ok, why = judge(spec, r)
         if not ok:
             rep.report(("triple",), spec, why)
+
+    # ------------------------------------------------------------------ comparing leaves nothing behind
+    cont = [i for i, (sh, _) in enumerate(vals) if lv.is_container(sh)]
+    okp = [(i, j) for i in cont for j in cont if table[(i, j)][0] in "TF" and table[(j, i)][0] in "TF"]
+    eqp = [(i, j) for (i, j) in okp if table[(i, j)] == ("T",)]
+    others = [pq for pq in okp if table[pq] != ("T",)]
+    rng.shuffle(others)
+    obs_pairs = eqp[:(20000 if thorough else 2500)] + others[:(6000 if thorough else 700)]
+    ospecs = [pspec("obs", i, j) for i, j in obs_pairs]
+    ores, dis = run_chunked(ctx, ospecs, "observe-after-compare", model_ok)
+    all_dis += dis
+    ctx.cov["observe_after_compare"] = {"pairs": len(obs_pairs), "equal": min(len(eqp), 20000 if thorough else 2500)}
+    for spec, r in zip(ospecs, ores):
+        ctx.nontrivial(("obs", skeleton(spec["a"]), skeleton(spec["b"]), spec["ra"], spec["rb"]))
+        ok, why = judge(spec, r)
+        if not ok:
+            rep.report(("obs", why[:50]), spec, why)
+    # ------------------------------------------------------------------ long keys with multi-byte characters on the error path
+    lk = []
+    for total in (20, 30, 45, 60, 70):
+        for ch in ("é", "€", "\U0001F600"):
+            for at in range(0, total - 1, 1 if thorough or total in (30, 45) else 3):
+                key_ = "k" * at + ch + "k" * max(0, total - at - len(ch.encode()))
+                for wrap in ("%s", "[0, %s]", '{"in": %s}'):
+                    lk.append({"k": "longkey", "key": key_, "wrap": wrap})
+    lres, dis = run_chunked(ctx, lk, "long-multibyte-keys", model_ok)
+    all_dis += dis
+    for spec, r in zip(lk, lres):
+        ctx.nontrivial(("longkey", len(spec["key"].encode()), spec["wrap"]))
+        ok, why = judge(spec, r)
+        if not ok:
+            rep.report(("longkey", why[:40]), spec, why)
 
     # ------------------------------------------------------------------ functions (outside the function-free scope)
     fspecs = [{"k": "func", "setup": s, "expr": e, "want": w} for s, e, w in FUNC_CASES]
